@@ -114,6 +114,9 @@ def wl(ctx, config):
                 vcase(ctx, config, B.pk, B.obj, B.msg, agg[:32 * j] + b32(x) + agg[32 * j + 32:], "mut:r_off_curve")
             elif kind == 3:
                 s = I(agg[-32:]); vcase(ctx, config, B.pk, B.obj, B.msg, agg[:-32] + b32(rng.choice((n, n + 1, 2**256 - 1, s + n if s + n < 2**256 else n))), "mut:s_ge_n")
+                # sign-flipped and neighbouring aggregate scalars (an x-only or otherwise sign-blind final comparison)
+                vcase(ctx, config, B.pk, B.obj, B.msg, agg[:-32] + b32((n - s) % n), "mut:s_negated")
+                vcase(ctx, config, B.pk, B.obj, B.msg, agg[:-32] + b32((s + rng.choice((1, n - 1))) % n), "mut:s_plus_minus_1")
             elif kind == 4:
                 vcase(ctx, config, B.pk, B.obj, B.msg, agg + b'\x00', "mut:len+1"); vcase(ctx, config, B.pk, B.obj, B.msg, agg[:-1], "mut:len-1"); vcase(ctx, config, B.pk, B.obj, B.msg, agg + bytes(31), "mut:len+31")
             elif kind == 5:
